@@ -1,6 +1,6 @@
 (* C04 - a synchronous call returns the server's reply to that very call (I/O-thread side: routing).
    This file only pins statements. *)
-From Amq Require Import Lib.Base Gen.Consts Model.Wire Model.Frames Model.OutBuf Model.Collector Model.Slots Model.Core Spec.Slots Spec.Content Proofs.Slots Proofs.OutBuf Proofs.Collector Proofs.CoreContent Proofs.CoreInv Proofs.CoreMore.
+From Amq Require Import Lib.Base Gen.Consts Model.Wire Model.Frames Model.OutBuf Model.Collector Model.Slots Model.Core Spec.Slots Spec.Content Proofs.Slots Proofs.OutBuf Proofs.Collector Proofs.CoreContent Proofs.CoreInv Proofs.CoreMore Model.Handle Proofs.Handle.
 
 (* A reply-class frame (the 13 -Ok methods with all their fields, Get-Empty) on channel n is appended, unchanged, to the reply queue of slot n; the resulting state differs from the old one in that queue ONLY (set_qs c (pushed ...)): no other queue, slot, buffer or phase changes, for every n, every reply, every state *)
 Theorem C04_routing : forall (n : N) (m : smethod) (dbg : str) (c : core) (s : slot), steady c -> n <> 0 -> alookup n (c_slots c) = Some s -> is_reply m -> has_room (s_reply s) (c_qs c) -> process c (FMethod n m, dbg) = (OOk, set_qs c (pushed (s_reply s) (reply_item m) (c_qs c))).
@@ -13,6 +13,22 @@ Proof. exact reply_bogus. Qed.
 (* whatever a frame of channel m is, every other channel's slot (reply queue id, collector, consumers) is exactly as before: overlapping calls on different channels cannot disturb each other *)
 Theorem C04_other_channels : forall (f : frame) (dbg : str) (c : core) (o : outcome) (c' : core), frame_chan f <> 0 -> process c (f, dbg) = (o, c') -> slots_off (frame_chan f) c c'.
 Proof. exact frame_other_channels. Qed.
+
+(* THE CALLER'S SIDE (IoLoopHandle::call): n successive calls on a channel whose reply queue holds their n replies get them in order - the i-th call the i-th reply - and leave the rest of the queue untouched; with C04_routing (the I/O thread puts each reply-class frame on the reply queue of its channel, in order) a call returns the server's reply to that very call *)
+Theorem C04_calls_in_order : forall (wants : list N) (s : hstate) (rest : list hitem), h_mail_rx s = true -> h_replies s = map HMethod wants ++ rest -> fst (hrun (map CCall wants) s) = map ROk wants /\ h_replies (snd (hrun (map CCall wants) s)) = rest /\ h_mail (snd (hrun (map CCall wants) s)) = h_mail s + N.of_nat (length wants).
+Proof. exact calls_in_order. Qed.
+
+(* a call that returns consumes at most the head of its reply queue and never reorders it *)
+Theorem C04_call_takes_head : forall (c : hcall) (s : hstate) (r : hres) (s' : hstate), hstep c s = Some (r, s') -> h_replies s' = h_replies s \/ (exists it : hitem, h_replies s = it :: h_replies s').
+Proof. exact call_takes_head. Qed.
+
+(* when the request went out and the reply at the head of the queue is of the type the call expects, the call returns exactly it *)
+Theorem C04_call_returns_head : forall (want : N) (rest : list hitem) (s : hstate), h_mail_rx s = true -> h_replies s = HMethod want :: rest -> hstep (CCall want) s = Some (ROk want, with_replies s rest (h_mail s + 1)).
+Proof. exact call_returns_head. Qed.
+
+(* a verdict of the I/O thread at the head of the reply queue (channel closed by the server, connection closed, ...) is what the call reports - whether or not its own request could still be handed over (check_recv_for_error) *)
+Theorem C04_verdict_reported : forall (c : hcall) (e : N) (rest : list hitem) (s : hstate), c <> CNowait \/ h_mail_rx s = false -> h_replies s = HErr e :: rest -> exists s' : hstate, hstep c s = Some (RErrItem e, s') /\ h_replies s' = rest.
+Proof. exact verdict_reported. Qed.
 
 (* non-vacuity: Queue.DeclareOk("q", 7, 2) on channel 3 lands in slot 3's reply queue (id 5) *)
 Example C04_example :
@@ -33,8 +49,16 @@ Qed.
 Check C04_routing : forall (n : N) (m : smethod) (dbg : str) (c : core) (s : slot), steady c -> n <> 0 -> alookup n (c_slots c) = Some s -> is_reply m -> has_room (s_reply s) (c_qs c) -> process c (FMethod n m, dbg) = (OOk, set_qs c (pushed (s_reply s) (reply_item m) (c_qs c))).
 Check C04_bogus : forall (n : N) (m : smethod) (dbg : str) (c : core), steady c -> n <> 0 -> alookup n (c_slots c) = None -> is_reply m -> process c (FMethod n m, dbg) = (OErr (EBogusChannel n), c).
 Check C04_other_channels : forall (f : frame) (dbg : str) (c : core) (o : outcome) (c' : core), frame_chan f <> 0 -> process c (f, dbg) = (o, c') -> slots_off (frame_chan f) c c'.
+Check C04_calls_in_order : forall (wants : list N) (s : hstate) (rest : list hitem), h_mail_rx s = true -> h_replies s = map HMethod wants ++ rest -> fst (hrun (map CCall wants) s) = map ROk wants /\ h_replies (snd (hrun (map CCall wants) s)) = rest /\ h_mail (snd (hrun (map CCall wants) s)) = h_mail s + N.of_nat (length wants).
+Check C04_call_takes_head : forall (c : hcall) (s : hstate) (r : hres) (s' : hstate), hstep c s = Some (r, s') -> h_replies s' = h_replies s \/ (exists it : hitem, h_replies s = it :: h_replies s').
+Check C04_call_returns_head : forall (want : N) (rest : list hitem) (s : hstate), h_mail_rx s = true -> h_replies s = HMethod want :: rest -> hstep (CCall want) s = Some (ROk want, with_replies s rest (h_mail s + 1)).
+Check C04_verdict_reported : forall (c : hcall) (e : N) (rest : list hitem) (s : hstate), c <> CNowait \/ h_mail_rx s = false -> h_replies s = HErr e :: rest -> exists s' : hstate, hstep c s = Some (RErrItem e, s') /\ h_replies s' = rest.
 
 Print Assumptions C04_routing.
 Print Assumptions C04_bogus.
 Print Assumptions C04_other_channels.
+Print Assumptions C04_calls_in_order.
+Print Assumptions C04_call_takes_head.
+Print Assumptions C04_call_returns_head.
+Print Assumptions C04_verdict_reported.
 Print Assumptions C04_example.
